@@ -15,6 +15,7 @@ class VReactor(Clock):
         self._when_running = []
         self.selectables = []
         self.max_steps = 200
+        self.interrupts = []      # virtual instants at which "a signal arrives" and reactor.stop() is called
 
     # IReactorCore ---------------------------------------------------------------------------
     def callWhenRunning(self, f, *a, **kw):
@@ -31,15 +32,23 @@ class VReactor(Clock):
         steps = 0
         while self.running:
             calls = [c for c in self.calls if c.active()]
-            if not calls:
+            times = [c.getTime() for c in calls] + list(self.interrupts)
+            if not times:
                 self.running = False
                 raise WouldBlockForever("reactor running with nothing scheduled")
-            nxt = min(c.getTime() for c in calls)
+            nxt = min(times)
             self.advance(max(0, nxt - self.seconds()))
+            due = [t for t in self.interrupts if t <= self.seconds()]
+            if due:
+                self.interrupts = [t for t in self.interrupts if t > self.seconds()]
+                self.stop()      # looked up on the instance: Spinner substitutes crash() while it runs
             steps += 1
             if steps > self.max_steps:
                 self.running = False
                 raise WouldBlockForever("more than %d reactor steps" % self.max_steps)
+
+    def interrupt_at(self, t):
+        self.interrupts.append(t)
 
     def crash(self):
         self.running = False
